@@ -27,12 +27,21 @@ Round 9 (v9_c06): BIT-FIELDS DECLARED THROUGH THE API.  The same declaration (bi
   names, bits, size, alignment and unit offsets the independent reference (refimpl) prescribes and the cs.load class has, parse
   the reference's values (each in [0, 2^bits)) from the same bytes through a drawn call form, dump the input's data bits, and
   dump the same bytes when built from the field values; reads / writes of the API-built classes also go to the Lean model.
+Round 10 (v10_c06): ALIGNED BIT-FIELD STRUCTURES AT ARBITRARY STREAM POSITIONS AND NESTED.  Structures loaded with align=True (runs of
+  bit-fields sharing units of size 1/2/4/8 over plain / signed / enum / flag / alias storage, plain members, optionally a null-terminated
+  array in front of a run) x {<,>} x {interpreted, compiled}: values built through the API or parsed at a drawn stream position are
+  written at EVERY stream position 0..9 through v.write / T.write on a BytesIO or a real file (appending / overwriting) and read back from
+  the same position through T.read / T(stream) / cs.read; and the same structures as member / array element of a packed or aligned outer
+  structure behind a prefix of 0..5 bytes, dumped or written at a drawn position.  The bytes of every storage unit stand at start + layout
+  offset and hold the fields in endian-defined order (the module's own layout and composition), nothing outside [start, end) is touched,
+  reading back from the same position returns the same values.  Territory of known finding F43 (enum-typed field continuing a unit at a
+  misaligned absolute position; members behind a misplaced aligned structure) is classified by signature (see the module docstring).
 """
 from __future__ import annotations
 
 import itertools
 
-from .. import defs, impl, refimpl, t1_hist, v5_c06bb, v8_c06, v9_c06
+from .. import defs, impl, refimpl, t1_hist, v5_c06bb, v8_c06, v9_c06, v10_c06
 from ..common import Result, mkrng
 from ..structprops import Engine, load, real_parse, bits_after_dynamic, small_unit_bits, signed_bit_units, rand_bytes
 
@@ -318,7 +327,17 @@ def run(env) -> Result:
                 "cstruct instance per route: names, bits, size, alignment, unit offsets = independent reference (refimpl) = the cs.load class; "
                 "4-7 inputs per class through a drawn call form (T(stream|bytes|memoryview), T.read(stream|bytearray), T.reads): values = "
                 "reference, each bit-field an int / enum member in [0, 2^bits), consumed size, dumps = data bits of the input, T(**values).dumps() "
-                "the same; read/write of API-built classes vs Lean model. distinct = (declaration, route with its parameters, config[, call form, input])")
+                "the same; read/write of API-built classes vs Lean model. distinct = (declaration, route with its parameters, config[, call form, input]). "
+                "(h) aligned structures at stream positions: seeded align=True structures (bit-field runs sharing units of size 1/2/4/8 over plain/"
+                "signed/enum/flag/alias storage, exhausted units, plain members, optional null-terminated array in front) x {<,>} x {interpreted, "
+                "compiled}; 2 built values + 1-3 values parsed at a drawn position (= the module's own unit slices; aligned positions also vs Lean "
+                "model) each written at every stream position 0..9 by v.write / T.write on BytesIO / a real file, appending or overwriting, read "
+                "back at the same position by T.read / T(stream) / cs.read; the same structures as member N n / N n[2..3] of a packed or aligned "
+                "outer structure behind 0..5 prefix bytes, followed by a plain member / outer bit-fields / nothing, dumps() or write at a drawn "
+                "position: prefix untouched, every storage unit at start + layout offset = fields composed in endian-defined order, plain members "
+                "in place, padding zero, nothing behind the end position changed, declared size at aligned starts, read back = written values each "
+                "in [0, 2^bits); F43 territory (enum-typed continuation of a unit at a misaligned absolute position, members behind a misplaced "
+                "aligned structure) classified. distinct = (definition[, outer], config, values, position, write form, read form)")
     eng = Engine(env, res, "C06")
     rnd = mkrng(env["seed"], "c06")
     tier = env["tier"]
@@ -416,6 +435,8 @@ def run(env) -> Result:
     v8_c06.run(env, eng, res, mkrng(env["seed"], "c06-callforms"))
     # (g) bit-fields declared through the API: the same declaration along every construction route
     v9_c06.run(env, eng, res, mkrng(env["seed"], "c06-api"))
+    # (h) aligned bit-field structures written / read at every stream position 0..9 and nested in packed / aligned structures
+    v10_c06.run(env, eng, res, mkrng(env["seed"], "c06-alignedpos"))
     res.sample({"definition": defs.render_struct("T", trees[0]), "inputs": "all 256 byte values"})
     res.sample({"definition": defs.render_struct("T", trees[-1])})
     return res
@@ -429,5 +450,7 @@ def replay(body) -> int:
         return v8_c06.replay_case(body["case"])
     if "apibits" in (body.get("case") or {}):
         return v9_c06.replay_case(body["case"])
+    if "alignedpos" in (body.get("case") or {}):
+        return v10_c06.replay_case(body["case"])
     print(body.get("case", {}).get("repro"), body.get("case", {}).get("data"))
     return 0
